@@ -44,7 +44,12 @@ theorem C27_change_nonneg (ibc : Fixed64) (share : Fixed64 → Fixed64) (inp : I
 /-- the amount attributed as paid (`realDPOSReward`) is at most the reward, and the remainder is
     exactly the difference — provided the 64-bit accumulator did not wrap (`0 ≤ real`; with
     non-negative payments that is `Σ payments < 2^63`).  `_partial`: the accumulator bound is a
-    hypothesis, not derived from the float arithmetic. -/
+    hypothesis, not derived from the float arithmetic.
+    Domain note: this statement is about `realDPOSReward` and needs no bound on the reward.  The
+    stronger reading "the sum of the result map is at most the reward" additionally depends on the
+    float quantities (`N·ibc ≤ reward/4`, `Σ share ≤ 3·reward/4`); that is oracle-checked only, and
+    only for `reward < 2^53` sela, where `float64(reward)` is exact — above that the shares can
+    exceed the reward by rounding (seen from 10^16 sela on; more than the total supply). -/
 theorem C27_attributed_le_reward_partial (ibc : Fixed64) (share : Fixed64 → Fixed64) (inp : Input)
     (m : RMap) (change : Fixed64) (h : distribute ibc share inp = some (m, change)) :
     ∃ real, distributeEra ibc share inp = some (m, real) ∧ change = inp.reward - real ∧
